@@ -493,6 +493,9 @@ def amount_of(tok):
             dv = decimal.Decimal(fr.numerator) / decimal.Decimal(fr.denominator)
         assert _F(dv) == fr, "token is not a finite decimal"
         return dv
+    if tok.startswith("K:"):          # the SI prefix with this factor
+        import quantity.si_prefixes as sp
+        return sp.SI_PREFIX_MAP[to_dec_or_frac(parse_rat(tok[2:]))]
     if tok.startswith("F:"):
         return parse_rat(tok[2:])
     if tok.startswith("D:"):
@@ -537,7 +540,24 @@ def qty_of(tok):
 def _decl_class(st, name, cdef, rsym, rname, quantum):
     kw = {}
     if cdef != "-":
-        kw["define_as"] = Term(reg_items(st, cdef))
+        items = reg_items(st, cdef)
+        st.n_cdefs = getattr(st, "n_cdefs", 0) + 1
+        if st.n_cdefs % 2 and all(isinstance(e, int) and e != 0 for _, e in items) \
+                and items[0][1] > 0:
+            # written with the operators of the quantity classes, as in the
+            # documentation: Length / Duration ** 2, Mass * Length, Length ** 2
+            c0, e0 = items[0]
+            d = c0 ** e0 if e0 != 1 or len(items) == 1 else c0
+            for c, e in items[1:]:
+                if e > 0:
+                    d = d * (c if e == 1 else c ** e)
+                else:
+                    d = d / (c if e == -1 else c ** -e)
+            if not isinstance(d, Term):
+                d = c0 ** 1
+            kw["define_as"] = d
+        else:
+            kw["define_as"] = Term(items)
     if rsym != "-":
         kw["ref_unit_symbol"] = opt_str(rsym)
     if rname == "1":
@@ -687,7 +707,7 @@ def _q_unit(st, o, a, u, d):
 def _q_num(st, o, a, k, d):
     with dflt_mode(d):
         qa = qty_of(a)
-        kk = to_dec_or_frac(parse_rat(k))
+        kk = amount_of(k)
         if o == "mul":
             r1, r2 = qa * kk, kk * qa
             assert show_val(r1) == show_val(r2)
@@ -709,6 +729,22 @@ def _q_num(st, o, a, k, d):
                 if "math domain" in str(exc):
                     raise ZeroDivisionError from None
                 raise
+        return "ok " + show_val(r)
+
+
+@op("u_num")
+def _u_num(st, o, u, k, d):
+    with dflt_mode(d):
+        unit = Unit(u)
+        kk = amount_of(k)
+        if o == "mul":
+            r = unit * kk
+        elif o == "rmul":
+            r = kk * unit
+        elif o == "div":
+            r = unit / kk
+        else:
+            r = kk / unit
         return "ok " + show_val(r)
 
 
@@ -758,6 +794,10 @@ def _conv_table(st, cls, rows):
         f, t = ft.split(">")
         table.append((Unit(f), Unit(t), to_dec_or_frac(parse_rat(k)),
                       to_dec_or_frac(parse_rat(o))))
+    # the list form and the mapping form (last row wins) in turn
+    st.n_tables = getattr(st, "n_tables", 0) + 1
+    if st.n_tables % 2 == 0:
+        table = {(f, t): (k, o) for f, t, k, o in table}
     c.register_converter(TableConverter(table))
     return "ok"
 
